@@ -117,3 +117,23 @@ def arm_region(fn, sw, variant):
 
 def is_registry_fn(cg, path):
     return path in cg.registry
+
+
+def borrow(ctx, rep, new_rule, text, fns, rename):
+    """run rule functions of another pack on a sub-report and adopt their obligations under `new_rule`;
+    `rename` maps the foreign rule ids to strip from keys (e.g. {"R02c": ..}). Known findings are keyed per property and
+    rule, so a borrowed obligation is suppressed only by an entry of the borrowing property."""
+    sub = type(rep)(rep.prop)
+    for f in fns:
+        f(ctx, sub)
+    rep.rule(new_rule, text)
+    for o in sub.obs:
+        for old in rename:
+            if o.key.startswith(old + "|"):
+                o.key = new_rule + "|" + old + "|" + o.key[len(old) + 1:]
+                break
+        else:
+            o.key = new_rule + "|" + o.key
+        o.rule = new_rule
+        rep.obs.append(o)
+    return sub
